@@ -32,7 +32,7 @@ import (
 )
 
 func TestC48(t *testing.T) {
-	c := ev.New("C48", "non-trivial: the issuer given to the parser is not the signer's CA (same-name/other-key or unrelated), or the response carries an embedded certificate, or the signing key is not the embedded certificate's key, or the response bytes were modified; distinct = (sub-property, signing mode, key kind, signature algorithm, CertID hash, status, issuer relation, cert argument, extension class, responder-id form, mutation kind and region, verdict)")
+	c := ev.New("C48", "non-trivial: the issuer given to the parser is not the signer's CA (same-name/other-key or unrelated), or the response carries an embedded certificate, or the signing key is not the embedded certificate's key, or the embedded certificate is a look-alike of the issuer (copies subject/SubjectKeyId/AuthorityKeyId/serial/issuer name/validity/usages/CA flag, self-signed or signed by another CA, attacker key), or the responder id names the issuer although somebody else signed, or the response bytes were modified; distinct = (sub-property, signing mode, look-alike field set and signer, key kind, signature algorithm, CertID hash, status, issuer relation, cert argument, extension class, responder-id form, mutation kind and region, verdict)")
 	defer c.Flush(t)
 	c.Oracle("signer model: generation-time knowledge of which key signed what (accept iff documented checks must pass)")
 	c.Oracle("independent RFC 6960 decoder + crypto/rsa, crypto/ecdsa verification (refcbyte, self-tested against OpenSSL 3.5 output)")
@@ -190,7 +190,7 @@ func c48PropCreateParse(rt *rapid.T, c *ev.Collector, pool *ref.OCSPPool) {
 	der, err, pan := c48Create(ca.Cert, s.respCert, tmpl, priv)
 	t1 := time.Now()
 	if pan != nil {
-		rt.Fatalf("VF-VIOLATION: property=C48 CreateResponse panicked: %v (mode %s, template %+v)", pan, s.mode, tmpl)
+		rt.Fatalf("VF-VIOLATION: property=C48 CreateResponse panicked: %v (mode %s, template %+v)", pan, s.desc(), tmpl)
 	}
 	if wantCreateErr {
 		if err == nil {
@@ -200,7 +200,7 @@ func c48PropCreateParse(rt *rapid.T, c *ev.Collector, pool *ref.OCSPPool) {
 		return
 	}
 	if err != nil {
-		rt.Fatalf("VF-VIOLATION: property=C48 CreateResponse failed on a valid template: %v (mode %s key %s, template %+v)", err, s.mode, s.priv.Kind, tmpl)
+		rt.Fatalf("VF-VIOLATION: property=C48 CreateResponse failed on a valid template: %v (mode %s key %s, template %+v)", err, s.desc(), s.priv.Kind, tmpl)
 	}
 
 	// --- the produced bytes, read by the independent decoder
@@ -234,7 +234,7 @@ func c48PropCreateParse(rt *rapid.T, c *ev.Collector, pool *ref.OCSPPool) {
 	}
 	if dec != nil {
 		if msg := c48CheckEncoding(dec, ca.Cert, s, tmpl, wantHash, wantAlg); msg != "" {
-			rt.Fatalf("VF-VIOLATION: property=C48 CreateResponse encoding: %s (mode %s, template %+v, der %x)", msg, s.mode, tmpl, der)
+			rt.Fatalf("VF-VIOLATION: property=C48 CreateResponse encoding: %s (mode %s, template %+v, der %x)", msg, s.desc(), tmpl, der)
 		}
 	}
 
@@ -249,6 +249,10 @@ func c48PropCreateParse(rt *rapid.T, c *ev.Collector, pool *ref.OCSPPool) {
 		rt.Fatalf("VF-VIOLATION: property=C48 ParseResponseForCert panicked: %v (der %x)", pan, der)
 	}
 	sigOK, checked := c48SigModel(s, ver)
+	if err := c48ModelCrossCheck(s, ver); err != nil {
+		c.Inconclusive(err.Error())
+		rt.Fatalf("harness: %v", err)
+	}
 	if wantAlg == x509.MD5WithRSA && checked {
 		sigOK = false // crypto/x509 refuses MD5 signatures
 	}
@@ -257,7 +261,7 @@ func c48PropCreateParse(rt *rapid.T, c *ev.Collector, pool *ref.OCSPPool) {
 	if perr == nil {
 		verdict = "accepted"
 	}
-	key := fmt.Sprintf("A|%s|%s|%v|h%d|%s|%s|%s|%s|%s", s.mode, s.priv.Kind, wantAlg, wantHash, statusCls, verClass, certCls, extCls, verdict)
+	key := fmt.Sprintf("A|%s|%s|%v|h%d|%s|%s|%s|%s|%s|%s|%s", s.mode, s.priv.Kind, wantAlg, wantHash, statusCls, verClass, certCls, extCls, verdict, s.forgedCopy, s.forgedBy)
 	switch {
 	case !documentedStatus:
 		// ServerFailed "is unused and was never used": nothing but totality is demanded
@@ -268,7 +272,7 @@ func c48PropCreateParse(rt *rapid.T, c *ev.Collector, pool *ref.OCSPPool) {
 		// rejected, the package documents no EKU check; either verdict is tolerated,
 		// but an accepted response must still be right.
 		if perr == nil && !wantAccept {
-			rt.Fatalf("VF-VIOLATION: property=C48 accepted although the signer model rejects (%s %s %s)", s.mode, verClass, certCls)
+			rt.Fatalf("VF-VIOLATION: property=C48 accepted although the signer model rejects (%s %s %s)", s.desc(), verClass, certCls)
 		}
 		c.Class("A:noeku-" + verdict)
 		if perr != nil {
@@ -276,7 +280,7 @@ func c48PropCreateParse(rt *rapid.T, c *ev.Collector, pool *ref.OCSPPool) {
 			return
 		}
 	case wantAccept && perr != nil:
-		rt.Fatalf("VF-VIOLATION: property=C48 round trip: ParseResponseForCert rejected a response it must accept: %v (mode %s key %s alg %v, %s, %s, ext %s; der %x)", perr, s.mode, s.priv.Kind, wantAlg, verClass, certCls, extCls, der)
+		rt.Fatalf("VF-VIOLATION: property=C48 round trip: ParseResponseForCert rejected a response it must accept: %v (mode %s key %s alg %v, %s, %s, ext %s; der %x)", perr, s.desc(), s.priv.Kind, wantAlg, verClass, certCls, extCls, der)
 	case !wantAccept && perr == nil:
 		why := "the signer model rejects"
 		if sigOK && critical {
@@ -284,7 +288,7 @@ func c48PropCreateParse(rt *rapid.T, c *ev.Collector, pool *ref.OCSPPool) {
 		} else if sigOK && matchIdx < 0 {
 			why = "no SingleResponse matches the certificate's serial"
 		}
-		rt.Fatalf("VF-VIOLATION: property=C48 ParseResponseForCert accepted a response although %s (mode %s key %s alg %v, %s, %s, ext %s; der %x)", why, s.mode, s.priv.Kind, wantAlg, verClass, certCls, extCls, der)
+		rt.Fatalf("VF-VIOLATION: property=C48 ParseResponseForCert accepted a response although %s (mode %s key %s alg %v, %s, %s, ext %s; der %x)", why, s.desc(), s.priv.Kind, wantAlg, verClass, certCls, extCls, der)
 	}
 	if perr == nil {
 		w := c48Want{status: tmpl.Status, reason: tmpl.RevocationReason, serial: tmpl.SerialNumber,
@@ -298,12 +302,12 @@ func c48PropCreateParse(rt *rapid.T, c *ev.Collector, pool *ref.OCSPPool) {
 			w.tbs, w.sig = dec.TBSBytes, dec.SigBits
 		}
 		if msg := c48CheckFields(r, w); msg != nil {
-			rt.Fatalf("VF-VIOLATION: property=C48 round trip: %v (mode %s, template %+v, der %x)", msg, s.mode, tmpl, der)
+			rt.Fatalf("VF-VIOLATION: property=C48 round trip: %v (mode %s, template %+v, der %x)", msg, s.desc(), tmpl, der)
 		}
 		// whatever was accepted with a signature check must verify independently
 		if checked {
 			if msg := c48IndependentAccept(r, verCert); msg != "" {
-				rt.Fatalf("VF-VIOLATION: property=C48 accepted but %s (mode %s, %s; der %x)", msg, s.mode, verClass, der)
+				rt.Fatalf("VF-VIOLATION: property=C48 accepted but %s (mode %s, %s; der %x)", msg, s.desc(), verClass, der)
 			}
 		}
 	}
@@ -312,6 +316,7 @@ func c48PropCreateParse(rt *rapid.T, c *ev.Collector, pool *ref.OCSPPool) {
 	if tmpl.Status == ocsp.Revoked {
 		classes = append(classes, fmt.Sprintf("A:reason=%d", tmpl.RevocationReason))
 	}
+	classes = append(classes, c48ForgedClasses(s, verClass, verdict)...)
 	c.Case(nontrivial, key, classes...)
 	if c.WantSample() {
 		c.Sample(map[string]any{"sub": "A", "mode": s.mode, "signer_key": s.priv.Kind, "sigalg": wantAlg.String(), "issuer_hash": int(wantHash), "status": statusCls,
@@ -429,6 +434,21 @@ func c48PropRefBuilt(rt *rapid.T, c *ev.Collector, pool *ref.OCSPPool) {
 	} else {
 		spec.ResponderName = s.respCert.RawSubject
 	}
+	// mirror of the look-alike certificate: the responder id names the issuing
+	// CA (by its subject or by the SHA-1 of its key) although somebody else signs
+	ridAtIssuer := s.priv != ca.Key && rapid.IntRange(0, 2).Draw(rt, "ridAtIssuer") == 0
+	if ridAtIssuer {
+		ridCls += "->issuer"
+		if spec.ByKey {
+			bits, err := ref.OCSPSPKIBits(ca.Cert.RawSubjectPublicKeyInfo)
+			if err != nil {
+				rt.Fatalf("harness: %v", err)
+			}
+			spec.ResponderKey = ref.OCSPHash(crypto.SHA1, bits)
+		} else {
+			spec.ResponderName = ca.Cert.RawSubject
+		}
+	}
 	pt, _ := c48Time(rt, "producedAt")
 	spec.ProducedAt = c48WantTime(pt)
 	if rapid.Bool().Draw(rt, "nonce") {
@@ -502,17 +522,31 @@ func c48PropRefBuilt(rt *rapid.T, c *ev.Collector, pool *ref.OCSPPool) {
 		rt.Fatalf("VF-VIOLATION: property=C48 ParseResponseForCert panicked: %v (der %x)", pan, der)
 	}
 	sigOK, checked := c48SigModel(s, ver)
+	if err := c48ModelCrossCheck(s, ver); err != nil {
+		c.Inconclusive(err.Error())
+		rt.Fatalf("harness: %v", err)
+	}
 	countOK := nSingles >= 1 && (cert != nil || nSingles == 1)
 	wantAccept := sigOK && countOK && matchIdx >= 0 && !crit[matchIdx]
 	verdict := "rejected"
 	if perr == nil {
 		verdict = "accepted"
 	}
+	if ridAtIssuer && wantAccept {
+		// the responder id names a party that did not sign; without an issuer (or
+		// with the CA that really vouches for the signer) the documented checks
+		// pass, but a parser may also refuse the mismatch: verdict free
+		c.Class("B:responder-id-points-at-issuer:verdict-free:" + verdict)
+		if perr != nil {
+			c.Case(true, fmt.Sprintf("B|ridfree|%s|%s|%s", s.mode, verClass, verdict), "B:"+s.mode)
+			return
+		}
+	}
 	if wantAccept && perr != nil {
-		rt.Fatalf("VF-VIOLATION: property=C48 a valid RFC 6960 response was rejected: %v (mode %s key %s alg %v, %s, %s, %s, %d SingleResponses, match %d; der %x)", perr, s.mode, s.priv.Kind, spec.SigAlg, ridCls, verClass, certCls, nSingles, matchIdx, der)
+		rt.Fatalf("VF-VIOLATION: property=C48 a valid RFC 6960 response was rejected: %v (mode %s key %s alg %v, %s, %s, %s, %d SingleResponses, match %d; der %x)", perr, s.desc(), s.priv.Kind, spec.SigAlg, ridCls, verClass, certCls, nSingles, matchIdx, der)
 	}
 	if !wantAccept && perr == nil {
-		rt.Fatalf("VF-VIOLATION: property=C48 accepted a response that must be rejected (sigOK=%v countOK=%v match=%d; mode %s key %s alg %v, %s, %s, %s; der %x)", sigOK, countOK, matchIdx, s.mode, s.priv.Kind, spec.SigAlg, ridCls, verClass, certCls, der)
+		rt.Fatalf("VF-VIOLATION: property=C48 accepted a response that must be rejected (sigOK=%v countOK=%v match=%d; mode %s key %s alg %v, %s, %s, %s; der %x)", sigOK, countOK, matchIdx, s.desc(), s.priv.Kind, spec.SigAlg, ridCls, verClass, certCls, der)
 	}
 	if perr == nil {
 		x := spec.Singles[matchIdx]
@@ -541,12 +575,19 @@ func c48PropRefBuilt(rt *rapid.T, c *ev.Collector, pool *ref.OCSPPool) {
 		}
 		if checked {
 			if msg := c48IndependentAccept(r, verCert); msg != "" {
-				rt.Fatalf("VF-VIOLATION: property=C48 accepted but %s (mode %s, %s; der %x)", msg, s.mode, verClass, der)
+				rt.Fatalf("VF-VIOLATION: property=C48 accepted but %s (mode %s, %s; der %x)", msg, s.desc(), verClass, der)
 			}
 		}
 	}
 	nontrivial := s.embedded != nil || s.mode != "direct" || verClass == "ver=samename-otherkey" || verClass == "ver=unrelated"
-	key := fmt.Sprintf("B|%s|%s|%v|%s|%s|%s|n%d|%s|%s", s.mode, s.priv.Kind, spec.SigAlg, ridCls, verClass, certCls, nSingles, certsCls, verdict)
+	key := fmt.Sprintf("B|%s|%s|%v|%s|%s|%s|n%d|%s|%s|%s|%s", s.mode, s.priv.Kind, spec.SigAlg, ridCls, verClass, certCls, nSingles, certsCls, verdict, s.forgedCopy, s.forgedBy)
+	for _, cl := range c48ForgedClasses(s, verClass, verdict) {
+		c.Class(cl)
+	}
+	if ridAtIssuer {
+		nontrivial = true
+		c.Class("responder-id-points-at-issuer:" + s.mode + ":" + verClass + ":" + verdict)
+	}
 	c.Case(nontrivial, key, "B:"+s.mode, "B:key="+s.priv.Kind, "B:"+ridCls, "B:"+verClass, "B:"+certCls, fmt.Sprintf("B:singles=%d", nSingles), "B:"+certsCls, "B:"+verdict)
 	if c.WantSample() {
 		c.Sample(map[string]any{"sub": "B", "mode": s.mode, "signer_key": s.priv.Kind, "sigalg": spec.SigAlg.String(), "responder_id": ridCls, "verifier": verClass,
@@ -584,4 +625,28 @@ func c48ErrorResponses(t *testing.T, c *ev.Collector) {
 	c.ClassN("error-responses", n)
 	c.Evals(n)
 	c.Exhaustive("non-success OCSPResponseStatus values x (bare, with responseBytes) x (ParseResponse, ParseResponseForCert)", n)
+}
+
+// c48ModelCrossCheck: the generation-time knowledge "who signed the embedded
+// certificate" must agree with a plain signature verification under the
+// verifier's public key (no name / key-id matching involved).
+func c48ModelCrossCheck(s c48Signing, ver *ref.OCSPCA) error {
+	if s.embedded == nil || ver == nil {
+		return nil
+	}
+	crypt := ref.OCSPVerify(s.embedded.SignatureAlgorithm, ver.Cert.PublicKey, s.embedded.RawTBSCertificate, s.embedded.Signature)
+	x := ver.Cert.CheckSignature(s.embedded.SignatureAlgorithm, s.embedded.RawTBSCertificate, s.embedded.Signature) == nil
+	if crypt != (s.embSigner == ver.Key) || x != crypt {
+		return fmt.Errorf("signer model inconsistent: embedded certificate (mode %s) recorded signer==verifier is %v, crypto says %v, crypto/x509 says %v", s.mode, s.embSigner == ver.Key, crypt, x)
+	}
+	return nil
+}
+
+// c48ForgedClasses labels look-alike cases for the histogram.
+func c48ForgedClasses(s c48Signing, verClass, verdict string) []string {
+	if s.mode != "forged-embedded" {
+		return nil
+	}
+	return []string{"forged:copy=" + s.forgedCopy, "forged:signed-by=" + s.forgedBy, "forged:key=" + s.priv.Kind,
+		"forged:signed-by=" + s.forgedBy + ":" + verClass + ":" + verdict}
 }
